@@ -130,6 +130,10 @@ func (g *G) Expr(t string, d int) string {
 		case 10:
 			return fmt.Sprintf("%s(%s, {%s})", g.pick("all", "any", "none", "one"), g.Expr("strs", d-1), g.closure("bool", "string", d-1))
 		case 11:
+			if g.depth > 0 && g.elem[len(g.elem)-1] == "string" && g.r.Intn(2) == 0 {
+				// a pattern that changes from one iteration to the next
+				return fmt.Sprintf("(%s matches #)", g.pick("S", "T", `"abc"`, `"xyz a"`))
+			}
 			return fmt.Sprintf("(%s matches %s)", g.Expr("string", d-1), g.pick(`"^a"`, `"bc$"`, `"lo"`, `"^abc$"`, "T"))
 		case 12:
 			if g.NoCalls {
